@@ -232,6 +232,69 @@ fn siv_encrypt(key: &[u8], aad: &[u8], nonce: &[u8], pt: &[u8]) -> Vec<u8> {
     }
 }
 
+/// the harness's own cookie codec (independent of `KeySet::{encode,decode}_cookie`): key `idx` of the key file,
+/// id = idx + id_offset (wrapping), `id(4) len(2) nonce(16) ciphertext`, plaintext `alg(2) s2c c2s`
+fn own_cookie(rng: &mut Rng, file: &[u8], idx: usize, sess: &Session) -> Vec<u8> {
+    let id_offset = u32::from_be_bytes(file[8..12].try_into().unwrap());
+    let key = &file[20 + 64 * idx..20 + 64 * (idx + 1)];
+    let mut pt = sess.alg.to_be_bytes().to_vec();
+    pt.extend_from_slice(&sess.s2c);
+    pt.extend_from_slice(&sess.c2s);
+    let nonce = rng.bytes(16);
+    let ct = siv_encrypt(key, &[], &nonce, &pt);
+    let mut c = (idx as u32).wrapping_add(id_offset).to_be_bytes().to_vec();
+    c.extend_from_slice(&(ct.len() as u16).to_be_bytes());
+    c.extend_from_slice(&nonce);
+    c.extend_from_slice(&ct);
+    c
+}
+
+fn own_decode_cookie(file: &[u8], cookie: &[u8]) -> Option<(u16, Vec<u8>, Vec<u8>)> {
+    if file.len() < 20 || cookie.len() < 22 {
+        return None;
+    }
+    let id_offset = u32::from_be_bytes(file[8..12].try_into().unwrap());
+    let nkeys = u32::from_be_bytes(file[16..20].try_into().unwrap()) as usize;
+    let idx = u32::from_be_bytes(cookie[0..4].try_into().unwrap()).wrapping_sub(id_offset) as usize;
+    if idx >= nkeys || file.len() < 20 + 64 * (idx + 1) {
+        return None;
+    }
+    let key = &file[20 + 64 * idx..20 + 64 * (idx + 1)];
+    let cl = u16::from_be_bytes([cookie[4], cookie[5]]) as usize;
+    let ct = cookie[22..].get(..cl)?;
+    let pt = Aes256Siv::new_from_slice(key).ok()?.decrypt([&[] as &[u8], &cookie[6..22]], ct).ok()?;
+    if pt.len() < 2 {
+        return None;
+    }
+    let alg = u16::from_be_bytes([pt[0], pt[1]]);
+    let kb = &pt[2..];
+    match (alg, kb.len()) {
+        (15, 64) => Some((15, kb[..32].to_vec(), kb[32..].to_vec())),
+        (17, 128) => Some((17, kb[..64].to_vec(), kb[64..].to_vec())),
+        _ => None,
+    }
+}
+
+/// (type, body offset, body length) of the extension fields the parser would frame
+fn raw_fields(msg: &[u8], v5: bool) -> Vec<(u16, usize, usize)> {
+    let cutoff = if v5 { 0 } else { 24 };
+    let mut off = 48;
+    let mut out = vec![];
+    while off <= msg.len() && msg.len() - off > cutoff {
+        if msg.len() - off < 4 {
+            break;
+        }
+        let ty = u16::from_be_bytes([msg[off], msg[off + 1]]);
+        let len = u16::from_be_bytes([msg[off + 2], msg[off + 3]]) as usize;
+        if len < 4 || off + next4(len) > msg.len() {
+            break;
+        }
+        out.push((ty, off + 4, len - 4));
+        off += next4(len);
+    }
+    out
+}
+
 fn load_keyset(file: &[u8]) -> Arc<KeySet> {
     let mut rd = std::io::Cursor::new(file.to_vec());
     let (p, _) = KeySetProvider::load(&mut rd, 8).expect("keyset file");
@@ -283,6 +346,7 @@ struct World {
     denyf: IpFilter,
     allowf: IpFilter,
     keyset: Arc<KeySet>,
+    keyfile: Vec<u8>,
     info: NtpServerInfo,
     server: Option<Server<FixedClock>>,
     shadow: Option<Server<FixedClock>>,
@@ -305,6 +369,7 @@ impl World {
             allowf: IpFilter::new(&cfg.allowlist.filter),
             cfg,
             keyset: Arc::new(KeySet::new()),
+            keyfile: vec![],
             info: NtpServerInfo::default(),
             server: None,
             shadow: None,
@@ -628,7 +693,8 @@ fn exec_case(ops: &[String], run: &mut Run) {
                 w.denyf = IpFilter::new(&w.cfg.denylist.filter);
                 w.allowf = IpFilter::new(&w.cfg.allowlist.filter);
                 if let Some(k) = kv(r, "keys") {
-                    w.keyset = load_keyset(&unhex(k).expect("keys hex"));
+                    w.keyfile = unhex(k).expect("keys hex");
+                    w.keyset = load_keyset(&w.keyfile);
                 }
                 w.build();
                 run.end_op("ok");
@@ -898,6 +964,22 @@ fn oracle(run: &mut Run, w: &World, rvar: f64, msg: &[u8], buf: usize, in_deny: 
             }
         }
     }
+    // a request whose cookie decodes under the server's key set by the harness's OWN codec and whose authenticator
+    // verifies under that cookie's c2s key is an authenticated request: the parser must say so
+    if abs.parse == "ok" || abs.parse == "dec" {
+        let fields = raw_fields(msg, abs.version == 5);
+        let encs: Vec<usize> = fields.iter().enumerate().filter(|(_, f)| f.0 == 0x0404).map(|(i, _)| i).collect();
+        if encs.len() == 1 && abs.version != 3 {
+            let cookies: Vec<&(u16, usize, usize)> = fields[..encs[0]].iter().filter(|f| f.0 == 0x0204).collect();
+            if cookies.len() == 1 {
+                if let Some((_, _, c2s)) = own_decode_cookie(&w.keyfile, &msg[cookies[0].1..cookies[0].1 + cookies[0].2]) {
+                    if independent_auth(msg, abs.version == 5, &c2s) == Some(true) && !(abs.parse == "ok" && abs.has_cookie) {
+                        ofail(run, "c19_valid_request_rejected", &attrs(abs), "request with a cookie valid under the current key set and a verifying authenticator was not accepted as authenticated");
+                    }
+                }
+            }
+        }
+    }
     if abs.parse == "dec" && kind == "time" {
         ofail(run, "c19_auth_fail_time", &attrs(abs), "time answer to a request whose authentication failed");
     }
@@ -1112,10 +1194,13 @@ fn gen_cfg(rng: &mut Rng) -> (String, Vec<u8>, u32, u32, usize) {
     // key set file: time(8) id_offset(4) primary(4) len(4) keys(64 each)
     let nkeys = rng.usize(1, 4);
     let primary = if rng.chance(7, 10) { nkeys - 1 } else { rng.usize(0, nkeys - 1) };
-    let id_offset: u32 = match rng.below(4) {
+    // id offsets at / next to the u32 wrap: with two or three keys the ids of the newer keys wrap to 0, 1
+    let id_offset: u32 = match rng.below(6) {
         0 => 0,
         1 => u32::MAX,
         2 => 1,
+        3 => u32::MAX - 1,
+        4 => u32::MAX - 2,
         _ => rng.next_u64() as u32,
     };
     let mut file = vec![];
@@ -1364,7 +1449,7 @@ struct NtsCtx {
     cookie: Vec<u8>,
 }
 
-fn gen_session(rng: &mut Rng, keyset: &KeySet) -> NtsCtx {
+fn gen_session(rng: &mut Rng, keyset: &KeySet, file: &[u8], nkeys: usize) -> NtsCtx {
     let big = rng.chance(1, 3);
     let (alg, kl) = if big { (17u16, 64) } else { (15u16, 32) };
     let s2c = rng.bytes(kl);
@@ -1374,8 +1459,16 @@ fn gen_session(rng: &mut Rng, keyset: &KeySet) -> NtsCtx {
         s2c: make_cipher(&s2c).unwrap(),
         c2s: make_cipher(&c2s).unwrap(),
     };
-    let cookie = keyset.encode_cookie(&dec);
-    NtsCtx { sess: Session { alg, s2c, c2s }, cookie }
+    let sess = Session { alg, s2c, c2s };
+    // half of the sessions hold a cookie sealed under an arbitrary (possibly older, non-primary) key of the set,
+    // made by the harness's own codec; the others one from `KeySet::encode_cookie` (primary key)
+    let cookie = if rng.chance(1, 2) {
+        let ki = rng.usize(0, nkeys - 1);
+        own_cookie(rng, file, ki, &sess)
+    } else {
+        keyset.encode_cookie(&dec)
+    };
+    NtsCtx { sess, cookie }
 }
 
 thread_local! {
@@ -1528,6 +1621,45 @@ fn gen_nts(rng: &mut Rng, v5: bool, ctx: &NtsCtx, id_offset: u32, nkeys: usize) 
     m
 }
 
+/// One point of the sweep over NTS authenticator (type 0x0404) field shapes: stated field length 4..=44 (every
+/// value, also non-multiples of 4), nonce-length word 0..=24, NTPv4 / NTPv5 framing are enumerated by `combo`
+/// (41 * 25 * 2 = 2050 points); the ciphertext-length word (0..=40, 0xffff), a preceding valid cookie, bytes after
+/// the field and (v5) the draft identification are drawn at random.  The direct oracle is "handle returned".
+fn gen_auth_shape(rng: &mut Rng, combo: u64, ctx: &NtsCtx) -> Vec<u8> {
+    let flen = 4 + (combo % 41) as usize;
+    let nonce_w = ((combo / 41) % 25) as u16;
+    let v5 = (combo / (41 * 25)) % 2 == 1;
+    let ct_w: u16 = match rng.below(42) {
+        41 => 0xffff,
+        n => n as u16,
+    };
+    let mut m = if v5 { header_v5(rng, 3) } else { header_v34(rng, 4, 3, false) };
+    if v5 && rng.chance(3, 4) {
+        m.extend(field(0xF5FF, b"draft-ietf-ntp-ntpv5-09"));
+    }
+    if rng.chance(1, 2) {
+        m.extend(field(0x0204, &ctx.cookie));
+    }
+    let mut f = vec![0x04, 0x04];
+    f.extend_from_slice(&(flen as u16).to_be_bytes());
+    let mut body = vec![];
+    body.extend_from_slice(&nonce_w.to_be_bytes());
+    body.extend_from_slice(&ct_w.to_be_bytes());
+    body.extend(rng.bytes(40));
+    body.truncate(flen - 4);
+    f.extend(body);
+    while f.len() % 4 != 0 {
+        f.push(0);
+    }
+    m.extend(f);
+    if rng.chance(1, 2) {
+        // v4: more than a MAC's worth of bytes so that the field is framed as an extension field
+        let n = if v5 { rng.usize(1, 30) } else { rng.usize(25, 44) };
+        m.extend(rng.bytes(n));
+    }
+    m
+}
+
 fn mutate(rng: &mut Rng, mut m: Vec<u8>) -> Vec<u8> {
     match rng.below(6) {
         0 if !m.is_empty() => {
@@ -1611,7 +1743,7 @@ fn gen_case_with(rng: &mut Rng, idx: u64, malformed: bool, hostile_info: bool) -
     }
     let mut ops = vec![cfgline, srvline];
     let nreq = rng.usize(1, 6);
-    let ctx = gen_session(rng, &keyset);
+    let ctx = gen_session(rng, &keyset, &file, nkeys);
     let mut prev: Option<String> = None;
     for k in 0..nreq {
         let mut sess_used = false;
@@ -1627,6 +1759,10 @@ fn gen_case_with(rng: &mut Rng, idx: u64, malformed: bool, hostile_info: bool) -
                 *l ^= 1;
             }
             m
+        } else if (malformed || hostile_info) && (k == 0 || rng.chance(1, 6)) {
+            // systematic sweep of authenticator shapes: the first request of case `idx` is point `idx % 2050`
+            let combo = if k == 0 { idx % 2050 } else { rng.below(2050) };
+            gen_auth_shape(rng, combo, &ctx)
         } else if !malformed && k == 0 && idx == 6 {
             // F-C19a: valid NTS NTPv4 request without identifier whose cookie is the ninth authenticated field:
             // the time answer has neither authenticated nor encrypted fields and is sent without authenticator
